@@ -567,7 +567,44 @@ fn exports_roundtrip(unit: &compiler::artifact::InterfaceUnit, json: &str) -> (S
     (v.to_string(), entries)
 }
 
+fn fnv64(s: &str) -> String {
+    let mut h: u64 = 0xcbf29ce484222325;
+    for b in s.as_bytes() {
+        h ^= *b as u64;
+        h = h.wrapping_mul(0x100000001b3);
+    }
+    format!("{:016x}", h)
+}
+
+/// the eight maps of an environment, each as `(part.field (key value-hash) …)` in iteration order; keys are
+/// the `Debug` rendering of the real key, values a 64-bit hash of the `Debug` rendering of the real value
+fn env_dump(t: &compiler::env::TypeEnv, tr: &compiler::env::TraitEnv, v: &compiler::env::ValueEnv) -> crate::sexp::S {
+    use crate::sexp::{a, l};
+    fn m<'a, K: std::fmt::Debug + 'a, V: std::fmt::Debug + 'a>(name: &str, it: impl Iterator<Item = (&'a K, &'a V)>) -> crate::sexp::S {
+        let mut items = vec![a(name)];
+        for (k, v) in it {
+            items.push(l(vec![a(format!("{:?}", k)), a(fnv64(&format!("{:?}", v)))]));
+        }
+        l(items)
+    }
+    l(vec![
+        m("type_env.enums", t.enums.iter()),
+        m("type_env.structs", t.structs.iter()),
+        m("type_env.extern_types", t.extern_types.iter()),
+        m("trait_env.trait_defs", tr.trait_defs.iter()),
+        m("trait_env.trait_impls", tr.trait_impls.iter()),
+        m("trait_env.inherent_impls", tr.inherent_impls.iter()),
+        m("value_env.funcs", v.funcs.iter()),
+        m("value_env.extern_funcs", v.extern_funcs.iter()),
+    ])
+}
+
+fn genv_dump(g: &compiler::env::GlobalTypeEnv) -> crate::sexp::S {
+    env_dump(&g.type_env, &g.trait_env, &g.value_env)
+}
+
 struct SepResult {
+    linkenv: Option<crate::sexp::S>,
     roundtrip: Vec<(String, (String, usize))>,
     outcome: String,
     go: Option<crate::sexp::S>,
@@ -581,7 +618,7 @@ fn separate_build(root: &Path, order: &[String], dirs: &BTreeMap<String, PathBuf
     let _ = std::fs::remove_dir_all(&art);
     let _ = std::fs::create_dir_all(&art);
     let mut iface = Vec::new();
-    let mut res = SepResult { roundtrip: Vec::new(), outcome: String::new(), go: None, core: None, go_text: String::new(), iface: Vec::new() };
+    let mut res = SepResult { linkenv: None, roundtrip: Vec::new(), outcome: String::new(), go: None, core: None, go_text: String::new(), iface: Vec::new() };
     for p in order {
         let dir = dirs.get(p).cloned().unwrap_or_else(|| root.join(p));
         let inputs = package_inputs(&dir);
@@ -626,8 +663,17 @@ fn separate_build(root: &Path, order: &[String], dirs: &BTreeMap<String, PathBuf
             }
         }
     }
+    // the exports the link reads (re-read from JSON), in the order the cores are handed to `link_cores`
+    let pkgs_dump: Vec<crate::sexp::S> = units
+        .iter()
+        .map(|u| {
+            let e = &u.interface.exports;
+            crate::sexp::l(vec![crate::sexp::a(u.package.clone()), env_dump(&e.type_env, &e.trait_env, &e.value_env)])
+        })
+        .collect();
     match separate::link_cores(units) {
         Ok(lo) => {
+            res.linkenv = Some(crate::sexp::l(vec![crate::sexp::l(pkgs_dump), genv_dump(&lo.genv)]));
             res.outcome = "ok".to_string();
             res.go_text = lo.go.to_pretty(&lo.goenv, 120);
             res.go = Some(godump::gfile(&lo.go));
@@ -656,6 +702,7 @@ fn run_project(p: &Project, root: &Path, cap: usize, rng: &mut Rng, out: &mut St
             whole_go_text = c.go.to_pretty(&c.goenv, 120);
             writeln!(out, "{}\tSTAGE\tw.core\t{}", id, c01::prog(dump::core_file(&c.core), &c01::impls_table(&c.genv)).to_text()).unwrap();
             writeln!(out, "{}\tSTAGE\tw.go\t{}", id, godump::gfile(&c.go).to_text()).unwrap();
+            writeln!(out, "{}\tGENV\tw\t{}", id, genv_dump(&c.genv).to_text()).unwrap();
         }
         Ok(Err(e)) => writeln!(out, "{}\tWHOLE\terr\t{}\t{}", id, util::stage_of(&e), esc_line(&diag_class(&e))).unwrap(),
         Err(pn) => writeln!(out, "{}\tWHOLE\tpanic\t{}", id, esc_line(&util::panic_message(pn))).unwrap(),
@@ -717,6 +764,11 @@ fn run_project(p: &Project, root: &Path, cap: usize, rng: &mut Rng, out: &mut St
                 for (pkg, verdict) in &res.iface {
                     writeln!(out, "{}\tIFACE\t{}\t{}\t{}", id, k, pkg, verdict).unwrap();
                 }
+                if k < 2 {
+                    if let Some(le) = &res.linkenv {
+                        writeln!(out, "{}\tGENV\ts\t{}\t{}", id, k, le.to_text()).unwrap();
+                    }
+                }
                 for (pkg, (verdict, entries)) in &res.roundtrip {
                     writeln!(out, "{}\tRT\t{}\t{}\t{}\t{}", id, k, pkg, verdict, entries).unwrap();
                 }
@@ -769,6 +821,8 @@ pub fn main(args: &util::Args) {
             projects.push(g);
         }
     }
+    // the environment every link starts from (`GlobalTypeEnv::new()`: the builtins)
+    writeln!(out, "genv0\tGENV\t0\t{}", genv_dump(&compiler::env::GlobalTypeEnv::new()).to_text()).unwrap();
     let cap = if quick { 6 } else { 120 };
     for p in &projects {
         // deeply nested sources recurse deeply in every pass
